@@ -526,6 +526,9 @@ class Engine:
         s = self.statics.get(name)
         if s is None:
             raise Unsupported("static %s" % name)
+        if s.get("bytes") is None and s.get("ptr") and s["ptr"] in self.statics:
+            # a static holding a (fat) pointer to another allocation, e.g. `static X: &[u8] = b"..."`
+            return Ref(("S", s["ptr"]))
         return Opaque("static", name, {"bytes": s.get("bytes"), "size": s["size"]})
 
     # ---- constants
@@ -576,7 +579,13 @@ class Engine:
         m = re.fullmatch(r"<static\(DefId\([^~]*~ [^:]*::(?:.*::)?([A-Za-z_0-9]+)\)\)>", t)
         if m and m.group(1) in self.statics:
             return Ref(("S", m.group(1)))
-        m = re.search(r"([A-Za-z_0-9]+)::promoted\[(\d+)\]$", t)
+        m = re.fullmatch(r"<static\(DefId\([^~]*~ [^:]*::(.*)\)\)>", t)
+        if m:
+            path = m.group(1)
+            for k in self.statics:
+                if not k.startswith("alloc") and (path == k or path.endswith("::" + k)):
+                    return Ref(("S", k))
+        m = re.search(r"([A-Za-z_0-9]+)(?:::<[^>]*>)?::promoted\[(\d+)\]$", t)
         if m:
             rhs = mirparse.PROMOTED.get("%s::promoted[%s]" % (m.group(1), m.group(2)))
             if rhs is not None:
@@ -584,6 +593,14 @@ class Engine:
                 mm = re.fullmatch(r"std::ops::RangeInclusive::<(\w+)>::new\(const (\S+), const (\S+)\)", inner)
                 if mm:
                     return Ref(("V", Agg("struct", "RangeInclusive", [self.const(mm.group(2)), self.const(mm.group(3))])))
+                if rhs.startswith("std::ops::Range::<") or (rhs[:1].isupper() and "{" in rhs) or rhs.startswith("["):
+                    # aggregate of constants: evaluate the rvalue with an empty frame
+                    try:
+                        rv = mirparse.parse_rvalue(rhs)
+                        if rv[0] in ("struct", "adt", "array", "tuple"):
+                            return Ref(("V", self.rvalue(State(), Frame(None, "const"), rv)))
+                    except Exception:  # noqa
+                        pass
                 return Ref(("V", self.const(inner)))
         m = re.fullmatch(r'b?"(.*)"', t, flags=re.S)
         if m:
